@@ -12,6 +12,7 @@ EXTENDS OrderedKV, Json
 CONSTANTS KeySet,    \* keys that are written
           Probes,    \* keys that are asked for (superset of KeySet)
           Bounds,    \* scan bounds (NoKey = unbounded is always added)
+          DRBounds,  \* bounds offered to DeleteRange
           Vals,      \* value ids; the harness derives the byte size of a value from its id
           MaxOps,
           Export     \* "none" | "steps" (every transition) | "runs" (prefixes of simulated runs)
@@ -25,14 +26,18 @@ Rec(r) == /\ hist' = Append(hist, r) /\ ops' = ops + 1
 Call(a, k, v, lo, hi) == [a |-> a, k |-> k, v |-> v, lo |-> lo, hi |-> hi]
 
 MInit == KInit /\ ops = 0 /\ hist = <<>>
+\* in "runs" mode (simulation) every fourth call is a layout call, otherwise random runs rarely flush
+LayoutTurn == Export = "runs" /\ ops % 4 = 3
 MNext ==
     /\ ops < MaxOps
-    /\ \/ \E k \in KeySet, v \in Vals : KPut(k, v) /\ Rec(Call("Put", k, v, NoKey, NoKey))
-       \/ \E k \in KeySet : KDelete(k) /\ Rec(Call("Delete", k, 0, NoKey, NoKey))
-       \/ \E lo \in KeySet, hi \in KeySet : Lt(lo, hi) /\ KDeleteRange(lo, hi) /\ Rec(Call("DeleteRange", NoKey, 0, lo, hi))
-       \/ KFlush /\ Rec(Call("Flush", NoKey, 0, NoKey, NoKey))
-       \/ KCompact /\ Rec(Call("Compact", NoKey, 0, NoKey, NoKey))
-       \/ KReopen /\ Rec(Call("Reopen", NoKey, 0, NoKey, NoKey))
+    /\ \/ /\ ~LayoutTurn
+          /\ \/ \E k \in KeySet, v \in Vals : KPut(k, v) /\ Rec(Call("Put", k, v, NoKey, NoKey))
+             \/ \E k \in KeySet : KDelete(k) /\ Rec(Call("Delete", k, 0, NoKey, NoKey))
+             \/ \E lo \in DRBounds, hi \in DRBounds : Lt(lo, hi) /\ KDeleteRange(lo, hi) /\ Rec(Call("DeleteRange", NoKey, 0, lo, hi))
+       \/ /\ (Export # "runs" \/ LayoutTurn)
+          /\ \/ KFlush /\ Rec(Call("Flush", NoKey, 0, NoKey, NoKey))
+             \/ KCompact /\ Rec(Call("Compact", NoKey, 0, NoKey, NoKey))
+             \/ KReopen /\ Rec(Call("Reopen", NoKey, 0, NoKey, NoKey))
 MSpec == MInit /\ [][MNext]_mvars
 
 \* the complete observation of a state
@@ -65,20 +70,31 @@ PutDeleteLocal ==
                                                    ELSE x \in DOMAIN live' /\ live'[x] = live[x]
       ]_mvars
 
-ExportSteps == (Export = "steps") => PrintT(<<"STEP", ToJson([path |-> hist', obs |-> Obs'])>>)
-ExportRuns  == (Export = "runs" /\ ops > 0 /\ (ops = MaxOps \/ ops % 6 = 0)) => PrintT(<<"RUN", ToJson([path |-> hist, obs |-> Obs])>>)
+\* ---- export.  The observation of a state depends on `live` only, so it is printed once per distinct value
+\* of `live` (in the compacted state of it, which is reachable for every `live`): <<"OBS", {live, obs}>>.
+\* A transition is printed as the call path that performs it plus the `live` it must lead to; the replayer
+\* executes the path on a fresh engine and then asks everything in obs[live].
+LiveSet == {[k |-> k, v |-> live[k]] : k \in Keys}
+ExportSteps == (Export = "steps") => PrintT(<<"STEP", ToJson([path |-> hist', live |-> LiveSet'])>>)
+ExportObs   == (Export = "steps" /\ mem = {} /\ disk = Keys) => PrintT(<<"OBS", ToJson([live |-> LiveSet, obs |-> Obs])>>)
+\* simulation mode: TLC evaluates a CONSTRAINT on every candidate successor, so a run is printed for each candidate
+\* last call; kept are the runs that end with the last layout call (MaxOps is a multiple of 4) and, one call
+\* earlier, those that end with a delete (data spread over memtable and tables)
+ExportRuns  == (Export = "runs" /\ (ops = MaxOps \/ (ops = MaxOps - 1 /\ hist[Len(hist)].a = "Delete")))
+                  => PrintT(<<"RUN", ToJson([path |-> hist, live |-> LiveSet, obs |-> Obs])>>)
 
 \* ---- key sets for the configurations (a .cfg file cannot spell a sequence; it says KeySet <- Q_Keys)
 \* '.'=46 '/'=47 '0'=48 '1'=49 'a'=97.  The sets are built around pairs on which TLC refutes the engine
 \* contract for the bytewise separator, e.g. (".", "0") -> "/" and ("a/.", "a/0") -> "a//".
 Q_Keys   == {<<46>>, <<48>>, <<97, 47, 46>>}
-Q_Probes == Q_Keys \cup {<<47>>, <<97, 47, 48>>}
+Q_Probes == Q_Keys \cup {<<47>>, <<48, 48>>, <<97, 47, 48>>}
 Q_Bounds == {<<46>>, <<48>>, <<97, 47, 46>>, <<47>>}
 T_Keys   == {<<46>>, <<48>>, <<97, 47, 46>>, <<97, 47, 48>>}
-T_Probes == T_Keys \cup {<<47>>, <<97>>, <<97, 47, 47>>}
+T_Probes == T_Keys \cup {<<47>>, <<48, 48>>, <<97>>, <<97, 47, 47>>}
 T_Bounds == {<<46>>, <<48>>, <<97, 47, 46>>, <<47>>, <<97, 47, 48>>}
-R_Keys   == {<<46>>, <<46, 46>>, <<47>>, <<48>>, <<49>>, <<97>>, <<46, 47>>, <<97, 47>>, <<97, 47, 46>>,
-             <<97, 47, 48>>, <<97, 47, 97>>, <<97, 46>>, <<97, 48>>, <<97, 47, 47>>, <<97, 47, 46, 47, 48>>, <<48, 47, 46>>}
-R_Probes == R_Keys \cup {<<45>>, <<47, 47>>, <<97, 47, 47, 46>>, <<98>>}
-R_Bounds == {<<46>>, <<47>>, <<48>>, <<97, 47>>, <<97, 47, 47>>, <<97, 48>>, <<98>>}
+R_Keys   == {<<46>>, <<46, 46>>, <<47>>, <<48>>, <<49>>, <<97>>, <<46, 47>>, <<97, 47, 46>>,
+             <<97, 47, 48>>, <<97, 46>>, <<97, 48>>, <<97, 47, 47>>, <<97, 47, 46, 47, 48>>, <<48, 47, 46>>}
+R_Probes == R_Keys \cup {<<45>>, <<47, 47>>, <<97, 47>>, <<98>>}
+R_Bounds == {<<46>>, <<47>>, <<48>>, <<97, 47>>, <<97, 47, 47>>, <<97, 48>>}
+R_DR     == {<<48>>, <<97>>, <<97, 47, 46>>, <<97, 47, 47>>}
 =============================================================================
